@@ -22,18 +22,18 @@ CHECKS = {}
 def add(pid, engine, text, note, tech):
     CHECKS[pid] = dict(engine=engine, text=text, note=note, tech=tech)
 
-add("C01", "vsched", "All interleavings (sleep-set DFS, unbounded) of caller, scheduler loop and workers of the real scheduler.go (rewritten onto a controlled-scheduler shim) for every DAG with <=3 jobs (quick; <=4 jobs and N=3 thorough), every ok/error vector, N in {1,2}, both error modes; oracle on vector clocks: end(dep) happens-before start(job), dep succeeded, no job starts twice.", TB_SCHED, T_SCHED)
+add("C01", "vsched", "Two levels. Scheduler: all interleavings (sleep-set DFS, unbounded) of caller, scheduler loop and workers of the real scheduler.go (rewritten onto a controlled-scheduler shim) for every DAG with <=3 jobs (quick; <=4 jobs and N=3 thorough), duplicate dependency lists, every ok/error vector, N in {1,2}, both error modes. Generated code: flows in every permutation of the task listing (with and without predicates), multi-result providers (a dependency listed twice), Parallel End hooks. Oracle on vector clocks at both levels: the start of a job / user function happens-after the end of every dependency / provider / its own predicate, the dependency succeeded, nothing starts twice.", TB_SCHED, T_SCHED)
 add("C02", "genmc", "Every well-formed flow structure with <=2 tasks over <=2 types (thorough: 3 tasks/3 types), all listing orders of named shapes, type spellings, task expression forms, enclosing contexts, predicates: compiled by the cff binary of the working tree, run on the rewritten scheduler over all interleavings for N in {1,2} (and the default limit); each execution compared with the reference dataflow (each task once, exact argument values, Results), the set of outcomes over all schedules must be a singleton; two concurrent instances of the same flow.", TB_GEN, T_GEN)
-add("C03", "vsched", "Same exploration; oracles: largest set of pairwise HB-concurrent job bodies <= limit in every execution; N barrier jobs that can only finish if N bodies run at once never deadlock, also after 0..2 Goexit jobs; thread census per execution must not grow with the number of jobs; default limit max(GOMAXPROCS,4). The HB-overlap monitor also runs in every generated-code execution of the other checks.", TB_SCHED, T_SCHED)
+add("C03", "vsched", "Two levels. Scheduler: largest set of pairwise HB-concurrent job bodies <= limit in every execution; N barrier jobs that can only finish if N bodies run at once never deadlock, also after Goexit jobs (incl. a job that cancels its own context before exiting); thread census must not grow with the number of jobs; default limit max(GOMAXPROCS,4). Generated code: over-limit barriers (limit+1 user functions that only return if all run at once - flow tasks, Parallel tasks, slice elements; default limit 4 and Concurrency(2)) must never open; capacity barriers (two independent functions next to Slice/Map End hooks and predicates must meet); predicates counted as user functions; HB-overlap monitor in every generated-code execution of every check.", TB_SCHED, T_SCHED)
 add("C04", "genmc", "Flow shapes, predicate/fallback flows and all Parallel programs with <=2 items x every subset of <=2 panicking user functions (task, predicate, slice/map function, End hook) x panic value kinds {string,error,runtime error,struct} x fail-fast/ContinueOnError x N in {1,2}, all interleavings: no thread dies, errors.As yields *cff.PanicError with the injected value, fallbacks absorb, independent branches and a second concurrent directive unaffected.", TB_GEN, T_GEN)
-add("C05", "vsched", "Same exploration over outcomes {ok,error,Goexit,cancel,gate}, canceller thread, second enqueuing caller, emitter tick; oracle: no terminal state with the caller blocked, no escaped panic, no step-horizon overrun. The deadlock/crash monitors also run in every generated-code execution of the other checks.", TB_SCHED, T_SCHED)
-add("C06", "vsched", "Same executions as C05 judged at the terminal state after gates are released: every thread the scheduler created has exited; includes two consecutive runs in one execution. The leak monitor also runs in every generated-code execution of the other checks.", TB_SCHED, T_SCHED)
+add("C05", "vsched", "Two levels. Scheduler: outcomes {ok,error,Goexit,cancel,gate}, canceller thread, second enqueuing caller, emitter ticks, an emitter that kills the loop goroutine, own-context Goexit, default-limit scenarios, enqueue pressure. Generated code: flow shapes, predicate/fallback flows, Parallel programs, default-limit programs x {ok, failing subsets, panic, Goexit, cancel inside / before / from another thread, a function still running while another fails, two concurrent instances}. Oracle: no terminal state with the caller blocked, no escaped panic, no step-horizon overrun.", TB_SCHED, T_SCHED)
+add("C06", "vsched", "Same executions as C05 at both levels, judged at the terminal state after gated functions were released: every thread the scheduler created has exited; two consecutive runs in one execution; default concurrency with a failure while other jobs are in flight.", TB_SCHED, T_SCHED)
 add("C07", "vsched+genmc", "Scheduler level: fail-fast scenarios incl. Goexit and cancellation: nil => every job ran once ok; non-nil => errors.Is one of the jobs that failed in this very execution or the context error; nothing downstream of a failure ever starts. Generated-code level: flow shapes and Parallel programs x every non-empty failing subset, all interleavings: same oracle plus Results targets untouched on failure.", TB_GEN, T_GEN)
 add("C08", "vsched+genmc", "Scheduler level: ContinueOnError scenarios: every job with only successful ancestors runs exactly once, descendants of failures never, multierr.Errors(err) equals exactly the failed jobs' error values, sentinel never leaks. Generated-code level: Parallel programs with ContinueOnError(true / variable true / variable false / false) x failing subsets and panics, all interleavings.", TB_GEN, T_GEN)
 add("C09", "vsched+genmc", "Cancellation before the call, inside a job, and from a separate thread at every instant: no job body start is happens-after the cancel; Wait/the directive returns non-nil when cancel happens-before its return; with a gated (still running) job the caller is never stuck; generated-code level: every ctx-taking function receives the directive's context (marker value).", TB_GEN, T_GEN)
 add("C10", "genmc", "All Parallel programs with <=3 items from {Task, Tasks(2), Slice, Map} x signature variants x End hooks x collection contents (nil, empty, 1..3 elements) x N in {1,2,default}, map iteration order chosen by the explorer, all interleavings: each function/element/entry invoked exactly once with (i,s[i]) / (k,m[k]); End hook once, happens-after every element call of its collection, never after a failed or panicked element.", TB_GEN, T_GEN)
 add("C11", "genmc", "Flow shapes x every placement of predicates (no input / shared input / own input / upstream) and FallbackWith on <=2 tasks x predicate outcomes {true,false,panic} x task outcomes {ok,error,panic}, all interleavings: reference semantics for invocation, argument values, zero values, fallback substitution; predicates at most once.", TB_GEN, T_GEN)
-add("C12", "genmc-race", "The Go race detector runs under the controlled scheduler on every explored schedule: the repository's scheduler (rewritten onto the shim) and the cff-generated code are compiled with -race, the shim and the harness without; the native hand-offs between thread goroutines are hidden from the detector (runtime.RaceDisable) and each thread emits, on its own goroutine, exactly the acquire/release operations Go's runtime performs for the channel/close/context operation it executed. Explored: flow shapes, instrumented flows, predicate/fallback flows and Parallel programs x outcomes {ok, error, panic} x early return with another function still running (gated) by failure and by cancellation x two concurrent directives, N=2, all interleavings (sleep-set DFS). A report is confirmed by replaying its schedule in a fresh process.", TB_GEN + " For C12 additionally: the ThreadSanitizer runtime (bounded shadow/trace state: a racing pair is not reported on every run of the same schedule, so a clean run is evidence for the explored schedules only, never a proof); teardown of abandoned executions is serialised in view of the detector.", "stateless model checking of the implementation with the Go race detector as per-execution oracle: exhaustive sleep-set DFS over all interleavings under a controlled scheduler, happens-before of the modelled primitives re-created by race annotations")
+add("C12", "genmc-race", "The Go race detector runs under the controlled scheduler on every explored schedule. Scheduler level: the C12 scenario family (two/three-job graphs, failures, cancellation with gated jobs, two threads enqueuing concurrently) in a race build of the scheduler harness. Generated-code level: flow shapes incl. a dependency listed twice, instrumented flows, predicate/fallback flows, Parallel programs x outcomes {ok, error, panic} x early return by failure and by cancellation with another function still running (gated, released without a happens-before edge from the caller) x an identifier argument reassigned by the caller after an early return x two concurrent directives sharing an emitter stack. Only the repository's code and the generated code are instrumented; the native hand-offs are hidden (runtime.RaceDisable) and each thread emits exactly the acquire/release operations Go's runtime performs for the channel/close/context operation it executed; the annotations are bound to the Go memory model by an 18-program race litmus suite run first. A report is confirmed by replaying its schedule in fresh processes.", TB_GEN + " For C12 additionally: the ThreadSanitizer runtime (bounded shadow/trace state: a racing pair is not reported on every run of the same schedule, so a clean run is evidence for the explored schedules only, never a proof); teardown of abandoned executions is serialised in view of the detector.", "stateless model checking of the implementation with the Go race detector as per-execution oracle: exhaustive sleep-set DFS over all interleavings under a controlled scheduler, happens-before of the modelled primitives re-created by race annotations")
 add("C13", "genmc-static", "Every well-formed graph-family program, every spelling/context feature program (imports, aliases, shadowing identifiers, enclosing contexts, hand-written corner cases), the programs of the run-time families and the accepted assignability pairs, in 4 tool configurations (base/source-map x auto-instrument): cff exit status, diagnostics, parse + compile of every output file without the cff tag, AST scan for leftover directive calls, no Go panic of the tool.", TB_STATIC, T_STATIC)
 add("C14", "genmc-static", "All flow structures with <=2 tasks over <=2 types (thorough 3) incl. every ill-formed one, all 3-task unary flows (cycles at every distance), predicates, all listing orders of named shapes, and the full 13x13 Slice/Map element-vs-parameter assignability lattice (go/types as judge): cff accepts iff the reference rules do; rejected => non-zero exit, diagnostic naming the file, no output for it.", TB_STATIC, T_STATIC)
 add("C15", "genmc", "Programs whose every directive argument is wrapped in a logging identity function (flows, all listing orders of a shape, predicates/fallbacks, emitters, instrument names, Parallel incl. Slice/Map collections and End hooks, non-constant Concurrency/ContinueOnError) and programs whose enclosing function declares identifiers named like generated ones, all interleavings: arguments evaluated exactly once, in source order, on the calling thread, happens-before every user function start; output compiles and binds to the user's variables.", TB_GEN, T_GEN)
@@ -41,7 +41,7 @@ add("C16", "genmc-x", "(a) every build-constraint header inside the bound (all /
 add("C17", "genmc-x", "(a) the cff tool is rebuilt from the working tree with every range-over-map of the generator and of x/tools' typeutil.Map under control of a parent process, which enumerates every iteration order at every map iteration the tool performs on each program (all n! for n<=4 keys; reversal/rotations/transpositions above; one deviation at a time, thorough: pairs) and requires byte-identical output in base and source-map modes; (b) all -file subsets x explicit/default outputs x whole package yield identical bytes per source file, every file of a large package alone equals the whole-package result; (c) two fresh processes per package and mode agree and the random line-reset token never survives.", TB_STATIC, "explicit-state enumeration of the generator's nondeterminism (map iteration orders as environment answers, deviation-bounded) and of invocation histories (file subsets), on the real cff tool rebuilt with controlled map iteration")
 add("C18", "genmc", "Instrumented flows (every subset of tasks instrumented x InstrumentFlow x emitters {1,2,nested stack}) and Parallels x outcomes {ok,error,panic,predicate false} over all interleavings with recording emitters: exactly one Success/Error (Error carrying the returned error) then one Done last; one matching outcome event + one TaskDone per invocation; TaskSkipped once for uninvoked tasks on nil; every emitter of a stack sees the same sequence.", TB_GEN, T_GEN)
 add("C19", "vsched", "Scenarios with a recording emitter and a tick budget of 1..3: every emitted State satisfies the stated arithmetic, Pending/Waiting bounded by the jobs whose Enqueue began happens-before the report, no report after a normal Wait return.", TB_SCHED, T_SCHED)
-add("C20", "genmc-static", "Every accepted program of the C13 families: comment-free token streams of base and source-map output are identical (and both modes agree on acceptance).", TB_STATIC, T_STATIC)
+add("C20", "genmc-static", "(a) every accepted program of the C13 families (incl. hand-written inputs such as a 70 kB line): comment-free token streams of base and source-map output are identical and both modes agree on acceptance. (b) the MOD family (flows from Params, Results, Concurrency and plain Tasks: named shapes, task listing orders, type spellings, task forms, import situations, differently spelled identical types) is generated in base and in modifier mode, both are compiled and explored over all interleavings for every single failing and single panicking task; every modifier-mode execution is judged by the reference oracles and the set of observable outcomes per scenario must equal the base-mode set.", TB_STATIC, T_STATIC)
 
 NOT_YET = {
 }
